@@ -20,7 +20,7 @@ CHECKS = {
          "Generated suffix-sharing packets with filler that moves names just below / at / above offset 16383 and up to 65535 bytes; compressed and plain outputs must parse to the model and compressed must not be longer; the compressed form is also written at a non-zero stream offset and through a writer accepting 1..3 bytes per call; names by three public routes, NSEC windows stored in descending order in a fifth of the packets.",
          "Same exclusions as C02; large messages are a weighted minority of cases (reported in coverage.classes).", "4/C03"),
  "C04": ("property-based + capacity enumeration: independent envelope walker and byte equality across writer configurations",
-         "Generated packets (names built from labels, through Name::without or from text), packets built through the alternative constructors and packets obtained from the parser x {plain, compressed} x {Vec, growable cursor at offset 0/2/k over empty and pre-filled storage, writers accepting 1/3/7 bytes per call, fixed slices and cursors of every capacity 0..len+2}; framing checked by an independent RFC 1035 walker plus the schema decoder.",
+         "Generated packets (names built from labels, through Name::without or from text), packets built through the alternative constructors and packets obtained from the parser x {plain, compressed} x {Vec, growable cursor at offset 0/2/k over empty and pre-filled storage, writers accepting 1/3/7 bytes per call, fixed slices and cursors of every capacity 0..len+2}; framing checked by an independent RFC 1035 walker plus the schema decoder (a verdict that hinges on where a compression pointer leads is taken again with names read in place only).",
          "Capacity sweep is complete only for 15% of packets up to 600 bytes, 11 boundary capacities otherwise; cursor position after the write is not checked.", "4/C04"),
  "C05": ("property-based differential against an independent RFC 1035 envelope walker + schema decoder confined to each RDLENGTH slice",
          "Reference encodings with RDLENGTH larger (random or record-shaped surplus) or smaller than the typed content, bumped section counts, sections really holding 0..4000 entries, stray and twin OPT records, and mutated encodings; walker failure or content outside its frame => library must reject; library Ok => entries equal the framed entries.",
